@@ -403,6 +403,18 @@ add("kc_vacant_insert_full_frame", "core_contracts::h_vacant_insert_full_frame::
     expect=PANIC(*FULL_PANIC), contracts=True, kind="contract", backend="kani-contract", attrs=["#[kani::proof_for_contract(crate::entry::VacantEntry::<u8, u8, {N}>::insert)]"],
     fn="VacantEntry::insert under requires(full && key absent) modifies() - nothing is written before the panic", shape="S_u8")
 
+# ------------------------------------------------------------------ derived iterator methods (fold / nth / last / count) against next()
+ITERS = ("iter", "iter_mut", "keys", "values", "values_mut", "into_iter", "into_keys", "into_values", "drain", "set_iter", "set_into_iter", "set_drain")
+for wi, nm in enumerate(ITERS):
+    P = ["C09"] if wi in (0, 1, 2, 3, 4, 9) else ["C10"]
+    for oi, op in enumerate(("fold", "nth", "last", "count")):
+        # (N, len, cut, j)
+        q = [(4, 4, 0, 1), (2, 2, 1, 1), (2, 0, 0, 0)] if op != "nth" else [(4, 4, 0, 1), (3, 3, 1, 1), (2, 2, 0, 2), (2, 0, 0, 0)]
+        th = q + [(4, 4, 0, 3), (4, 3, 1, 0), (3, 3, 3, 0), (1, 1, 0, 0)]
+        add("drv_%s_%s" % (nm, op), "derived::h_derived::<{N}>(%d, %d, {A}, {B}, {C})" % (wi, oi), P,
+            [{"N": n, "A": a, "B": b, "C": c} for n, a, b, c in q], [{"N": n, "A": a, "B": b, "C": c} for n, a, b, c in th],
+            unwind="8", fn="%s::%s agrees with stepping by next()" % (nm, op), shape="S_u8")
+
 
 def units_for(prop):
     return [u for u in UNITS if prop in u.props or "*" in u.props]
